@@ -222,6 +222,19 @@ theorem write_order_defined (children : Nat → List Nat) (fuel top : Nat)
       (by intro y hy; simp only [List.mem_singleton] at hy; rw [hy]) (by simp) x
   · exact writeOrderGo_nodup children fuel [top] [] List.nodup_nil
 
+/-- **write_order_total.**  The hypothesis `finished = true` is always met with the fuel the driver (and
+    `composeV`) uses: in a netlist of `N` definitions whose child references stay inside the netlist, the
+    from-top order with fuel `2 + N + Σ |children d|` contains exactly the reachable modules, each once. -/
+theorem write_order_total (children : Nat → List Nat) (N top : Nat) (htop : top < N)
+    (hclosed : ∀ d, d < N → ∀ c ∈ children d, c < N) :
+    let fuel := 2 + N + ((List.range N).map (fun d => (children d).length)).sum
+    (writeOrder children fuel top).2 = true ∧
+    (∀ x, x ∈ (writeOrder children fuel top).1 ↔ Reaches children top x) ∧
+    (writeOrder children fuel top).1.Nodup := by
+  intro fuel
+  have hfin := writeOrder_finishes children N top htop hclosed
+  exact ⟨hfin, write_order_defined children fuel top hfin⟩
+
 theorem visit_order_defined (children : Nat → List Nat) (fuel top : Nat) (all : List Nat)
     (hall : all.Nodup) :
     (visitOrder children fuel (some top) all).1.Nodup ∧
